@@ -65,7 +65,7 @@ PROPS = {
         "one evaluation = one (configuration seed, flow, router): pilot + one simulated world per (k-th storage call of the target request) x (error | context-timeout | torn out-parameter). "
         "distinct non-trivial case = distinct (router, flow, k, fault kind, storage method) in which the fault actually fired inside the target request",
         {"runs": 16, "wall": 90}, {"runs": 2500, "wall": 1200},
-        {"quick": {"_runs": 200, "error": 800, "timeout": 800, "torn": 30, "canceled": 800, "_distinct": 400, "warm-up-jwt-verified": 200, "target-warm-run": 80},
+        {"quick": {"_runs": 200, "user-code-always-taken": 3, "error": 800, "timeout": 800, "torn": 30, "canceled": 800, "_distinct": 400, "warm-up-jwt-verified": 200, "target-warm-run": 80},
          "thorough": {"_runs": 20000, "error": 50000, "torn": 2000}},
         "Fault enumeration: every storage-call position of every scripted flow on both routers is failed once per fault kind (complete in k for the flows and configurations run); the response is checked for an error answer and for the absence of codes, tokens, claims and active:true.",
         "DESIGN.md section 4 C10", level="fault_enumeration",
@@ -77,7 +77,7 @@ PROPS = {
         "one evaluation = one seeded world (router, provider flags, storage capabilities, 5 client registrations with random grant sets) running 40-80 actor steps; each step picks endpoint x grant x client x credential presentation "
         "(right, wrong secret, secret by the other method, id only, none, assertion signed by foreign/other client's key, expired, wrong aud, sub!=iss, future iat). non-trivial = at least one success was checked; distinct = distinct step history",
         {"runs": 40, "wall": 90}, {"runs": 8000, "wall": 1200},
-        {"quick": {"_runs": 400, "code-redeemed-after-grant-was-withdrawn": 300, "refresh-success": 300, "introspect-active": 200, "other-grant-success": 150, "device-code-issued": 200, "secret-check-fails": 300},
+        {"quick": {"_runs": 400, "refresh-after-grant-was-withdrawn": 120, "code-redeemed-after-grant-was-withdrawn": 300, "refresh-success": 300, "introspect-active": 200, "other-grant-success": 150, "device-code-issued": 200, "secret-check-fails": 300},
          "thorough": {"_runs": 20000}},
         "Seeded exploration; one-directional oracle: every token issued, active:true, effective revocation or device code implies the reference matrix admits the presented credentials and the grant is registered and enabled; refusals must be OAuth error documents.",
         "DESIGN.md section 4 C05 and Appendix C"),
@@ -87,7 +87,7 @@ PROPS = {
         "one evaluation = one seeded world running 40-80 actor steps biased to refresh requests (chains up to 8 long, clock jumps, revocation and logout in between; in faulting worlds one storage call of a refresh may fail) and 'race' steps: refreshes, revocations, logout and uses of one token pair as concurrent tasks, "
         "every interleaving at storage calls and at most one storage fault chosen by the scheduler. non-trivial = at least one refresh succeeded; distinct = distinct step history",
         {"runs": 40, "wall": 90}, {"runs": 8000, "wall": 1200},
-        {"quick": {"_runs": 400, "refresh-success": 1000, "widening-refused": 1000, "refresh-chain-2+": 300, "race-groups": 1500, "race-refresh-ok": 400, "race-linearizability-checked": 1200, "error": 80, "sched-error": 100},
+        {"quick": {"_runs": 400, "refresh-after-grant-was-withdrawn": 400, "refresh-success": 1000, "widening-refused": 1000, "refresh-chain-2+": 300, "race-groups": 1500, "race-refresh-ok": 400, "race-linearizability-checked": 1200, "error": 80, "sched-error": 100},
          "thorough": {"_runs": 20000, "race-groups": 100000}},
         "Seeded exploration; every successful refresh is checked for client binding, registered grant, scope subset, rotation through the storage (journal), response token = storage's new token, preserved subject/audience/auth_time and non-growing scope along the chain.",
         "DESIGN.md section 4 C07"),
@@ -150,7 +150,7 @@ PROPS = {
         "one evaluation = one seeded world (router, algorithm, per-client post-logout registrations and globs, id-token lifetimes) running 40-80 steps: obtain id tokens, advance the clock, logout with hint kind x client_id x post_logout_redirect_uri kind x state x GET/POST. "
         "non-trivial = at least one logout redirected and one was rejected",
         {"runs": 40, "wall": 90}, {"runs": 8000, "wall": 1200},
-        {"quick": {"_runs": 400, "separate-access-token-keyset": 80, "logout-through-the-storage's-request-capability": 300, "separate-hint-keyset": 40, "hints-signed-by-the-hint-keyset-key": 100, "logout-redirect": 2000, "logout-rejected": 4000, "redirect-to-registered": 800, "expired-hint-accepted": 300, "hints-of-other-tenant": 300}, "thorough": {"_runs": 20000}},
+        {"quick": {"_runs": 400, "signing-key-rotated": 400, "signing-key-rotated-to-another-algorithm": 40, "separate-access-token-keyset": 80, "logout-through-the-storage's-request-capability": 300, "separate-hint-keyset": 40, "hints-signed-by-the-hint-keyset-key": 100, "logout-redirect": 2000, "logout-rejected": 4000, "redirect-to-registered": 800, "expired-hint-accepted": 300, "hints-of-other-tenant": 300}, "thorough": {"_runs": 20000}},
         "Seeded exploration; a redirect goes to the default URI or to a URI registered for the client proven by a validly signed hint (or client_id); invalid hints and contradictions are rejected; expired valid hints are accepted; the journal shows the hint's subject and client being terminated; state arrives unchanged.",
         "DESIGN.md section 4 C18"),
     "C17": flow(
@@ -176,7 +176,7 @@ PROPS = {
         "deterministic simulation: seeded assertions (iss, sub, aud, iat, exp on clock boundaries, kid, signing key) presented as jwt-bearer grant and as client authentication at four endpoints, signed request objects, and the library's own client helpers, against the real provider - in half of the worlds a multi-tenant provider (2-3 issuers from the Host or, behind a simulated reverse proxy, the Forwarded header) with every step addressed to a seeded tenant",
         "one evaluation = one seeded world running 40-80 steps: generated assertion x 5 surfaces, request object with 0-2 deviations, helper interop (profile, rs, tokenexchange, rp), clock advance. non-trivial = assertions were both accepted and refused",
         {"runs": 40, "wall": 90}, {"runs": 8000, "wall": 1200},
-        {"quick": {"_runs": 400, "concurrent-assertion-groups": 500, "concurrent-forgeries-rejected": 400, "assertion-accepted": 2000, "assertion-refused": 5000, "helper-assertions-accepted": 1500, "request-object-honoured": 300, "request-object-not-honoured": 3000, "multi-tenant-steps": 5000}, "thorough": {"_runs": 20000}},
+        {"quick": {"_runs": 400, "assertion-with-another-client_id-in-the-form": 1200, "concurrent-assertion-groups": 500, "concurrent-forgeries-rejected": 400, "assertion-accepted": 2000, "assertion-refused": 5000, "helper-assertions-accepted": 1500, "request-object-honoured": 300, "request-object-not-honoured": 3000, "multi-tenant-steps": 5000}, "thorough": {"_runs": 20000}},
         "Seeded exploration; accepted assertions must be valid in the reference model for the client named as issuer (key, audience, times outside a 2 s band, sub=iss) and the authenticated identity equals the issuer; request-object parameters take effect only for valid objects; helper-made assertions are accepted.",
         "DESIGN.md section 4 C14"),
     "C11": flow(
@@ -194,7 +194,7 @@ PROPS = {
         "one evaluation = one seeded provider configuration: discovery per issuer host, probe of each advertised endpoint, 7 grant-type probes, a complete code flow with S256 (wrong verifier must fail) using only advertised endpoints, a signed request object when advertised, "
         "interleaved discovery for two hosts with host-derived issuers, a 14-row issuer-validation table and 5 hostile discovery documents. Apart from the host interleaving this is a configuration sweep (said plainly). distinct = distinct configuration",
         {"runs": 40, "wall": 90}, {"runs": 20000, "wall": 1200},
-        {"quick": {"_runs": 400, "discovery-fetched": 500, "grant-probes": 3000, "endpoint-probes": 3000, "flows-completed": 500, "issuer-table-rows": 5000, "hostile-documents": 2000, "interleaved-discoveries": 500, "request-object-probes": 100, "multi-tenant-worlds": 100, "request-object-history-probes": 100, "sibling-provider-groups": 300},
+        {"quick": {"_runs": 400, "providers-built-from-one-issuer-strategy": 300, "discovery-fetched": 500, "grant-probes": 3000, "endpoint-probes": 3000, "flows-completed": 500, "issuer-table-rows": 5000, "hostile-documents": 2000, "interleaved-discoveries": 500, "request-object-probes": 100, "multi-tenant-worlds": 100, "request-object-history-probes": 100, "sibling-provider-groups": 300},
          "thorough": {"_runs": 50000}},
         "Seeded exploration of configurations; the document's issuer equals the iss of issued tokens, advertised endpoints are issuer-relative (or the configured absolute URL) and served, grant types are advertised iff not answered unsupported_grant_type, advertised S256 and request objects are honoured, bad issuers are rejected at construction, foreign-issuer documents are rejected by client.Discover.",
         "DESIGN.md section 4 C19"),
@@ -205,7 +205,7 @@ PROPS = {
         "(strip, alg none, 18 HMAC-with-public-key encodings, re-sign, kid games, payload edits, truncation, segment counts, alg outside the allow-list, wrong key type, JSON general/flattened serialisation incl. smuggled payloads, embedded jwk). "
         "Epilogue (a history): the provider rotates and retires its key; the same long-lived verifiers must believe the new key's tokens and, having fetched the new set, reject the retired key's. distinct non-trivial = distinct (surface, operator, algorithm, key-set shape) delivered",
         {"runs": 30, "wall": 90}, {"runs": 6000, "wall": 1200},
-        {"quick": {"_runs": 300, "withdrawn-key-rejected": 300, "genuine-accepted": 1000, "tampered-rejected": 40000, "hmac": 10000, "json": 4000, "kidless-probes": 20, "_distinct": 3000, "rotation-epilogues": 150, "retired": 400, "second-client-key-used": 250, "kidless-history-probes": 20}, "thorough": {"_runs": 20000}},
+        {"quick": {"_runs": 300, "separate-access-token-keyset": 25, "withdrawn-key-rejected": 300, "genuine-accepted": 1000, "tampered-rejected": 40000, "hmac": 10000, "json": 4000, "kidless-probes": 20, "_distinct": 3000, "rotation-epilogues": 150, "retired": 400, "second-client-key-used": 250, "kidless-history-probes": 20}, "thorough": {"_runs": 20000}},
         "Fault enumeration over the stated operator catalogue (complete per world): only the unmodified token (and a kid-less re-signature with exactly one candidate key) may be believed; the claims handed back are those of the signed payload; two fitting keys and no kid must be refused.",
         "DESIGN.md section 4 C02", level="fault_enumeration",
         level_note="Trusted: go-jose's primitives. The catalogue is the manipulation space; no schedule dimension."),
